@@ -445,6 +445,10 @@ func check(id, tier string) int {
 
 	// 2. exploration
 	seedBase := seed * 1000003
+	if tier == "thorough" {
+		seedBase |= 1 << 40 // harness.DeepBit: a third of the thorough tier's runs use larger bounds
+	}
+	seedBaseUsed = seedBase
 	type wres struct {
 		out *workerOut
 		err error
@@ -530,6 +534,7 @@ func check(id, tier string) int {
 }
 
 var reach map[string]any
+var seedBaseUsed uint64
 
 // statementReach merges the statement-reach files of the recording worker.
 func statementReach(dir, sitesFile string) map[string]any {
@@ -686,7 +691,7 @@ func writeEvidence(id, tier string, seed uint64, pc propCfg, t *workerOut, nviol
 		"rule":                        pc.Rule,
 		"samples":                     samples,
 		"families":                    pc.Families,
-		"seed_base":                   seed * 1000003,
+		"seed_base":                   seedBaseUsed,
 		"seeds":                       fmt.Sprintf("seed_base + worker + n*%d for the n-th run of a family by each of %d workers", workers, workers),
 		"runs_per_hour":               int(float64(t.Runs) / exploreWall * 3600),
 		"sim_time_s":                  float64(t.SimTimeMS) / 1000,
